@@ -16,6 +16,10 @@ structure Side where
   seenOut : Nat := 0
   /-- `out` frames already forwarded to the other side (pair mode) -/
   fwdOut : Nat := 0
+  /-- the senders suspended on the channel slot `write_send`, first come first (tokio's semaphore is fair) -/
+  chq : List Event := []
+  /-- pair mode: the transport towards the other side blocks the writer while this many bytes are unread -/
+  cap : Option Nat := none
 
 structure Sess where
   raw : Bool
@@ -69,32 +73,45 @@ def compact (s : State) : State :=
 
 def fuelOf (s : State) : Nat := 20000 + 40 * (s.rx.foldl (fun a f => a + f.data.length + 4) 0)
 
-def settleC (prio : List Key) (s : State) : State × Bool :=
-  let (s', ok) := settle prio (fuelOf s) s
+def settleC (first : List Event) (prio : List Key) (s : State) : State × Bool :=
+  let (s', ok) := settle first prio (fuelOf s) s
   (compact s', ok)
+
+/-- after quiescence: who is suspended on the channel slot now; those who were already waiting keep their place -/
+def Side.withState (sd : Side) (s' : State) : Side :=
+  let w := slotWaiters s'
+  { sd with s := s', chq := sd.chq.filter (fun e => w.contains e) ++ w.filter (fun e => !sd.chq.contains e) }
+
+def setLimit (s : State) (l : Option Nat) : State := (step? s (.txWindow l)).getD s
 
 def toWire (f : OFrame) : WFrame := ⟨mkHdr f.kind f.conn f.id, f.data⟩
 
-/-- pair mode: settle both sides, forward what each flushed, until nothing moves -/
+/-- pair mode: settle both sides, forward what each flushed, let each writer see how much the other side has pulled
+from the transport, until nothing moves -/
 def settlePair (pa pb : List Key) : Nat → Side → Side → Side × Side × Bool
   | 0, a, b => (a, b, false)
   | fuel + 1, a, b =>
-    let (sa, oka) := settleC pa a.s
-    let (sb, okb) := settleC pb b.s
-    let fa := (sa.out.take sa.flushed).drop a.fwdOut
-    let fb := (sb.out.take sb.flushed).drop b.fwdOut
-    if fa.isEmpty && fb.isEmpty then ({ a with s := sa }, { b with s := sb }, oka && okb) else
+    let la := a.cap.map (· + b.s.pulled)
+    let lb := b.cap.map (· + a.s.pulled)
+    let (sa, oka) := settleC a.chq pa (setLimit a.s la)
+    let (sb, okb) := settleC b.chq pb (setLimit b.s lb)
+    let fa := (sa.wire.take sa.flushed).drop a.fwdOut
+    let fb := (sb.wire.take sb.flushed).drop b.fwdOut
+    let a1 := a.withState sa
+    let b1 := b.withState sb
+    if fa.isEmpty && fb.isEmpty && a.cap.map (· + sb.pulled) == la && b.cap.map (· + sa.pulled) == lb then
+      (a1, b1, oka && okb) else
     let sb' := fa.foldl (fun s f => { s with rx := s.rx ++ [toWire f] }) sb
     let sa' := fb.foldl (fun s f => { s with rx := s.rx ++ [toWire f] }) sa
-    settlePair pa pb fuel { a with s := sa', fwdOut := a.fwdOut + fa.length } { b with s := sb', fwdOut := b.fwdOut + fb.length }
+    settlePair pa pb fuel { a1 with s := sa', fwdOut := a.fwdOut + fa.length } { b1 with s := sb', fwdOut := b.fwdOut + fb.length }
 
 def settleSess (ss : Sess) (pa : List Key := []) (pb : List Key := []) : Sess :=
   if ss.raw || ss.sides.size < 2 then
     match ss.sides[0]? with
     | none => ss
     | some a =>
-      let (s', ok) := settleC pa a.s
-      { ss with sides := ss.sides.set! 0 { a with s := s' }, diverged := ss.diverged || !ok }
+      let (s', ok) := settleC a.chq pa a.s
+      { ss with sides := ss.sides.set! 0 (a.withState s'), diverged := ss.diverged || !ok }
   else
     match ss.sides[0]?, ss.sides[1]? with
     | some a0, some b0 =>
@@ -135,9 +152,10 @@ def observe (ss : Sess) (res : String) (extra : List (String × Json)) : Sess ×
         | .opened slot conn id => some (si, slot, Json.arr #[natJ si, natJ slot, Json.str "open", natJ (if conn then 1 else 0), natJ id])
         | .read slot bytes eos => some (si, slot, Json.arr #[natJ si, natJ slot, Json.str "read", Json.str (hexOf bytes), natJ (if eos then 1 else 0)])
         | .wrote _ _ => none
+        | .canceled _ => none
   let doneSorted := stableSort (fun a b => a.1 < b.1 || (a.1 == b.1 && a.2.1 < b.2.1)) done
   let outOf (sd : Side) : Json :=
-    let fs := (sd.s.out.take sd.s.flushed).drop sd.seenOut
+    let fs := (sd.s.wire.take sd.s.flushed).drop sd.seenOut
     let sorted := stableSort (fun (a b : OFrame) => (a.conn == false && b.conn == true) || (a.conn == b.conn && a.id < b.id)) fs
     Json.arr (sorted.map fun f => Json.arr #[natJ (if f.conn then 1 else 0), natJ f.id, natJ (fkCode f.kind), Json.str (hexOf f.data)]).toArray
   let nout : Nat := (match sides[0]? with | some a => a.s.flushed - a.seenOut | none => 0) +
@@ -219,9 +237,11 @@ def frameOf (s : State) (f : Json) : Option WFrame :=
 def applyEv (s : State) (e : Event) : Option State := step? s e
 
 def wroteRes (sd : Side) (slot : Nat) : String :=
-  match (sd.s.doneLog.drop sd.seenDone).reverse.find? (fun d => match d with | .wrote x _ => x == slot | _ => false) with
+  match (sd.s.doneLog.drop sd.seenDone).reverse.find?
+      (fun d => match d with | .wrote x _ => x == slot | .canceled x => x == slot | _ => false) with
   | some (.wrote _ true) => "ok"
   | some (.wrote _ false) => "err"
+  | some (.canceled _) => "canceled"
   | _ => "pend"
 
 def doOp (ss : Sess) (j : Json) : Sess × Json :=
@@ -238,7 +258,50 @@ def doOp (ss : Sess) (j : Json) : Sess × Json :=
       let ss' := settleSess { ss with sides := ss.sides.set! si { sd with s := s' } } (advOf j 0) (advOf j 1)
       let r := match ss'.sides[si]? with | some sd' => wroteRes sd' slot | none => "pend"
       observe ss' r []
+    /- `write_all` / `flush` under a context of its own: if the call is still suspended at quiescence (it can only be
+       suspended in the reservation of the channel slot), the context is cancelled -/
+    let finC (s' : State) (k : Key) (ev : Event) : Sess × Json :=
+      let ss' := settleSess { ss with sides := ss.sides.set! si { sd with s := s' } } (advOf j 0) (advOf j 1)
+      match ss'.sides[si]? with
+      | none => observe ss' "pend" []
+      | some sd' =>
+        let r := wroteRes sd' slot
+        if r != "pend" then observe ss' r [] else
+        let pending := if ev == Event.cancelWrite k then (sd'.s.st k).pendW.isSome else (sd'.s.st k).pendF.isSome
+        if !pending then observe ss' "lost" [] else
+        match applyEv sd'.s ev with
+        | none => observe ss' "pend" []
+        | some s2 =>
+          let ss2 := settleSess { ss' with sides := ss'.sides.set! si { sd' with s := s2 } } [] []
+          let r2 := match ss2.sides[si]? with | some sd2 => wroteRes sd2 slot | none => "pend"
+          observe ss2 r2 []
     match op with
+    | "win" =>
+      -- raw mode: the peer takes `n` more bytes from the transport (`null`: it reads again without limit)
+      if !ss.raw then fin s "noraw" else
+      match getNat j "n" with
+      | some n => fin (setLimit s (some (s.txSent + n))) "ok"
+      | none => fin (setLimit s none) "ok"
+    | "cap" =>
+      -- pair mode: the transport from this side to the other holds at most `n` unread bytes before it blocks the writer
+      if ss.raw then fin s "nopair" else
+      observe (settleSess { ss with sides := ss.sides.set! si { sd with cap := getNat j "n" } } (advOf j 0) (advOf j 1)) "ok" []
+    | "cwrite" =>
+      match s.slots slot with
+      | .held k _ w =>
+        if !w then fin s "nohalf"
+        else match applyEv s (.appWrite slot (payload ((getNat j "n").getD 0) ((getNat j "seed").getD 0))) with
+          | some s' => finC s' k (.cancelWrite k)
+          | none => fin s "refused"
+      | _ => fin s "noslot"
+    | "cflush" =>
+      match s.slots slot with
+      | .held k _ w =>
+        if !w then fin s "nohalf"
+        else match applyEv s (.appFlush slot) with
+          | some s' => finC s' k (.cancelFlush k)
+          | none => fin s "refused"
+      | _ => fin s "noslot"
     | "wire" =>
       if !ss.raw then fin s "noraw" else
       let fs := ((getArr j "frames").getD #[]).toList.filterMap (frameOf s)
